@@ -359,7 +359,7 @@ def _reorder_multi(recs, fl, end):
 
 
 def sub_verbs(ctx):
-    ctx.hyp(case_strategy(), lambda c: body(ctx, c), ctx.n(2400, 60000))
+    ctx.hyp(case_strategy(), lambda c: body(ctx, c), ctx.n(6000, 60000))
 
 
 SUBCHECKS = [
